@@ -5,6 +5,7 @@ the action sequence on its running lock / killed event / is_alive / SetAsyncExc 
 (Model/Kill.lean); (J) PhaseExecutorThread.join_or_die inside real Test.execute() runs under VIRTUAL time with body
 durations around the deadline and the poll instants; (G) timed-out phases at every position of a group; (A) an
 abandoned (unkillable) body that acts after its phase was given up."""
+import itertools
 import threading
 
 from harness import common
@@ -395,11 +396,19 @@ def _run_a(case):
 # ---------------------------------------------------------------------------
 
 def run_real(case):
+  if case['kind'] == 'P':
+    # a phase time-out followed by plug tearDown (judged by the C08 driver: every tearDown runs, none is cut short by
+    # another one that hangs)
+    from harness.props import c08
+    return c08.run_real(case['c08'])
   return {'K': _run_k, 'J': _run_j, 'G': _run_g, 'A': _run_a}[case['kind']](case)
 
 
 def encode(case, o):
   k = case['kind']
+  if k == 'P':
+    from harness.props import c08
+    return c08.encode(case['c08'], o)
   if k == 'K':
     return 'C12 K %s # %s %s' % (' '.join(o['toks']), ' '.join(str(x) for x in o['real']), ' '.join(o['facts']))
   if k == 'J':
@@ -421,6 +430,9 @@ def classify(case, o):
 
 
 def nontrivial_key(case, o):
+  if case['kind'] == 'P':
+    import json
+    return json.dumps(case['c08'], sort_keys=True)
   if case['kind'] == 'K':
     return ' '.join(o['toks'])
   if case['kind'] == 'J':
@@ -506,6 +518,16 @@ def gen_cases(rng, tier):
     g = ec.Gen(r, allow_timeout=True, p_timeout=0.25)
     t = g.case(depth=r.choice([1, 2, 3]), width=r.choice([1, 2, 3]))
     cases.append({'kind': 'G', 'test': t, 'rseed': r.getrandbits(32), 'switch': 0.2})
+  # P: a timed-out phase, then plug tearDown with one tearDown hanging and the others taking their time
+  for tds in itertools.permutations(['hang', 'slow', None]):
+    for where in ('main', 'setup'):
+      ph = lambda i, raw, plugs: {'t': 'P', 'id': i, 'opts': {}, 'beh': [{'raw': raw}], 'plugs': plugs}
+      tmo = ph(2, 'timeout', [['a', 0], ['b', 1]])
+      grp = {'t': 'G', 's': [tmo] if where == 'setup' else [], 'm': [tmo] if where == 'main' else [ph(2, 'cont', [['a', 0]])],
+             'td': [ph(3, 'cont', [['c', 2]])]}
+      cases.append({'kind': 'P', 'c08': {'nodes': [ph(1, 'cont', [['a', 0], ['b', 1], ['c', 2]]), grp],
+                                         'plugs': {str(i): ({'td': t} if t else {}) for i, t in enumerate(tds)},
+                                         'callbacks': [False], 'src': 'timeout+teardown'}})
   for i in range(3 if quick else 40):
     cases.append({'kind': 'A', 'rseed': None if i == 0 else rng.derive('a%d' % i).getrandbits(32), 'switch': 0.3})
   return cases
